@@ -64,6 +64,28 @@ fn has_path_shadowing(xot: &Xot, root: Node) -> bool {
     false
 }
 
+/// some element declares, as its default namespace, a namespace that is already bound in the scope of its parent (a redundant
+/// default declaration), and an attribute in that namespace occurs at or below it: the tracker keeps the attribute's prefix
+/// declaration only while that default is there, so the first call removes the default and the second call the prefix
+fn has_redundant_default_over_attribute(xot: &Xot, root: Node) -> bool {
+    for n in xot.descendants(root) {
+        if !xot.is_element(n) { continue; }
+        let d = match xot.namespaces(n).get(xot.empty_prefix()) { Some(d) if *d != xot.no_namespace() => *d, _ => continue };
+        // bound above?
+        let mut bound = false;
+        let mut a = xot.parent(n);
+        while let Some(x) = a {
+            if xot.is_element(x) && xot.namespaces(x).iter().any(|(_, u)| *u == d) { bound = true; break; }
+            a = xot.parent(x);
+        }
+        if !bound { continue; }
+        for m in xot.descendants(n) {
+            if xot.is_element(m) && xot.attributes(m).keys().any(|k| xot.namespace_for_name(k) == d) { return true; }
+        }
+    }
+    false
+}
+
 /// text written by to_string must reparse to the same content (expanded names, attributes, values, order)
 fn check_faithful(case: &str, k: usize, st: &Store, sers: &[(Handle, Result<String, String>)], out: &mut Out, stats: &mut Stats) {
     for (h, s) in sers {
@@ -177,6 +199,7 @@ pub fn main_for(pid: &str) {
             let before_decls = decls(&st);
             let before_ser = ser_all(&st);
             let shadow_before: BTreeMap<Handle, bool> = st.roots().iter().map(|h| (*h, has_path_shadowing(&st.xot, st.known[h]))).collect();
+            let redundant_default_before: BTreeMap<Handle, bool> = st.roots().iter().map(|h| (*h, has_redundant_default_over_attribute(&st.xot, st.known[h]))).collect();
             let outcome = exec(&mut st, &op);
             st.refresh();
             stats.bump(&format!("op.{}", op_str(&op).split(' ').next().unwrap()));
@@ -266,7 +289,8 @@ pub fn main_for(pid: &str) {
                     let d1: Vec<usize> = st.live_handles().iter().filter(|h2| st.xot.is_element(st.known[*h2])).map(|h2| copy.namespaces(st.known[h2]).len()).collect();
                     if guard(|| copy.deduplicate_namespaces(target)).is_ok() {
                         let d2: Vec<usize> = st.live_handles().iter().filter(|h2| st.xot.is_element(st.known[*h2])).map(|h2| copy.namespaces(st.known[h2]).len()).collect();
-                        if d1 != d2 { out.fail(&case, if shadow { "dedup-not-idempotent-under-shadowing" } else { "dedup-not-idempotent" }, &format!("step {}: a second `{}` removes further declarations", step, op_str(&op))); }
+                        let redundant_default = *redundant_default_before.get(&root_h).unwrap_or(&false);
+                        if d1 != d2 { out.fail(&case, if shadow { "dedup-not-idempotent-under-shadowing" } else if redundant_default { "dedup-not-idempotent-redundant-default-over-attribute" } else { "dedup-not-idempotent" }, &format!("step {}: a second `{}` removes further declarations", step, op_str(&op))); }
                     }
                 }
                 _ => {}
